@@ -6,6 +6,8 @@
  * scenario  idle   server with resources /r (GET), /o (observable GET), /b (PUT, block-wise by libcoap), /L (GET, a 100-byte
  *                  body held in an exactly sized heap block and sent block-wise by libcoap), a proxy resource (own name
  *                  "myhost": a received Proxy-Uri is parsed in place in the PDU buffer) 
+ *           osc    the server additionally holds an OSCORE security context (sender "server", recipient "client", Appendix B.2
+ *                  enabled): a received OSCORE option is decoded, its kid / kid context looked up, the payload run through the AEAD
  *           b2     + a legitimate client has fetched block 0 (16 bytes) of /L: the server holds the body for the following blocks
  *           obs    + a legitimate client has registered an observation on /o (server holds a subscriber)
  *           blk    + a legitimate client has sent block 0 (M=1) of a Block1 PUT to /b (server holds a partial body)
@@ -135,6 +137,13 @@ static void step(char *line) {
   const char *own[1] = { "myhost" };
   coap_resource_t *px = coap_resource_proxy_uri_init2(hnd_get, 1, own, 0);
   coap_add_resource(srv, px);
+  if (!strcmp(scen, "osc")) {
+    static const char conf[] = "master_secret,hex,\"0102030405060708090a0b0c0d0e0f10\"\nmaster_salt,hex,\"9e7ca92223786340\"\n"
+                               "sender_id,ascii,\"server\"\nrecipient_id,ascii,\"client\"\nrfc8613_b_2,bool,true\n";
+    coap_str_const_t c = { sizeof(conf) - 1, (const uint8_t *)conf };
+    coap_oscore_conf_t *oc = coap_new_oscore_conf(c, NULL, NULL, 0);
+    if (!oc || !coap_context_oscore_server(srv, oc)) { printf("no-oscore"); sim_free_all(0); return; }
+  }
   cs = sim_new_client(cli, ntohs(ep->bind_addr.addr.sin.sin_port));
   uint8_t tok[2] = {0xab, 0xcd};
   if (!strcmp(scen, "obs")) {
@@ -169,7 +178,7 @@ static void step(char *line) {
     coap_pdu_t *p = sim_make_pdu(cs, COAP_MESSAGE_CON, COAP_REQUEST_CODE_GET, 0x1000, tok, 2, NULL, 0);
     coap_add_option(p, COAP_OPTION_URI_PATH, 1, (const uint8_t *)"r");
     coap_send(cs, p);                      /* sim_tx[0]; not delivered yet */
-  } else if (strcmp(scen, "idle")) { printf("bad-op"); sim_free_all(0); return; }
+  } else if (strcmp(scen, "idle") && strcmp(scen, "osc")) { printf("bad-op"); sim_free_all(0); return; }
 
   coap_set_log_level((coap_log_t)lvl);
   n_handler = 0;
